@@ -8,6 +8,8 @@ package memoize
 import (
 	"sync"
 
+	"github.com/corazawaf/coraza/v3/internal/verifhook"
+
 	"golang.org/x/sync/singleflight"
 )
 
@@ -51,6 +53,7 @@ func (m *Memoizer) Do(key string, fn func() (any, error)) (any, error) {
 	// Fast path: check cache
 	if v, ok := cache.Load(key); ok {
 		e := v.(*entry)
+		verifhook.Yield("memo.do.afterLoad")
 		if m.addOwner(e) {
 			return e.value, nil
 		}
@@ -67,6 +70,7 @@ func (m *Memoizer) Do(key string, fn func() (any, error)) (any, error) {
 			}
 		}
 
+		verifhook.Event(verifhook.MemoMiss, key, int(m.ownerID), 0)
 		data, innerErr := fn()
 		if innerErr == nil {
 			e := &entry{
@@ -93,6 +97,7 @@ func (m *Memoizer) Do(key string, fn func() (any, error)) (any, error) {
 // Release removes ownerID from all cached entries, deleting entries with no remaining owners.
 func Release(ownerID uint64) {
 	cache.Range(func(key, value any) bool {
+		verifhook.Yield("memo.release.step")
 		e := value.(*entry)
 		e.mu.Lock()
 		delete(e.owners, ownerID)
